@@ -107,6 +107,45 @@ CLAIMS.update({
          'helpers over IR) is not decided.', '5 C14'),
 })
 
+CLAIMS.update({
+ 'C04': ('proof',
+         'Contracts on the real escape_xml_string / escape_xml_comment (strings of any length, inductive loop contract over an '
+         'arbitrary watched output position): the text appended contains none of < > \' " and every & starts one of the five '
+         'predefined entities; comment text contains no "-". Contracts on the real write_corpus (whole function), '
+         'write_elf_symbol, write_elf_symbol_reference, write_elf_needed with escape-tracking strings: no free-form string '
+         '(path, soname, dependency, symbol name/version/id) enters the document without passing through escape_xml_string. '
+         'Bounded (inputs <= 4 bytes, all byte values): same output property on both overloads and unescape(escape(s)) == s.',
+         'Scoped to attribute/comment escaping and the listed emitters. "Every type id defined exactly once" and "every symbol '
+         'reference listed" (write_referenced_types over the IR) are not decided; the other write_* emitters of abg-writer.cc '
+         'are not under contract. Architecture names are assumed to come from the fixed e_machine table.', '5 C04'),
+ 'C33': ('proof',
+         'Contract on the real handle_version_attribute: for every version attribute (absent, empty, or splitting into any '
+         'number of fields incl. 0 and 1) the field vector is indexed in bounds and major/minor are recorded once; '
+         'unescape_xml_string / unescape_xml_comment (any length, loop contract): the read position never passes size(), the '
+         'loops terminate; real tools/abilint.cc main: a nil translation unit / corpus / group is never dereferenced and yields '
+         'exit status 1.',
+         'Scoped to those functions. The build_* functions of abg-reader.cc, type-id resolution and libxml2 are not decided. '
+         'split_string is an assumed callee model in U-version (checked bounded in U-strings).', '5 C33'),
+ 'C36': ('proof',
+         'Output stream modelled as ghost state (pending / bad / lost; any emission may stay buffered or fail, flush/close write '
+         'what is pending and may fail). Real write_corpus (whole function, TU loop by loop contract): returns true only if '
+         'nothing was lost and nothing is left buffered. Real tail of abidw\'s load_corpus_and_write_abixml and real abilint '
+         'main, against that callee contract: exit status 0 implies nothing lost and nothing pending, for every pattern of '
+         'buffering and failure, --out-file and stdout.',
+         'Assumes iostream reports a failed write in good()/fail(). write_corpus_group, write_translation_unit and the kernel '
+         'corpus-group branch of abidw are callee assumptions / not covered; a failure of the final implicit close of stdout is '
+         'outside the model.', '5 C36'),
+ 'C41': ('other',
+         'BOUNDED (never counted as proved): the real string_begins_with, string_ends_with, string_suffix, trim_leading_string, '
+         'split_string and decl_names_equal on every pair of strings of <= 5 bytes (all byte values): equal to their '
+         'definitions (prefix/suffix/proper-prefix suffix, non-empty trimmed fields in order, symmetry, string equality on '
+         'well-formed names without anonymous parts); decl_names_equal on names made of an anonymous struct/union/enum internal '
+         'prefix plus <= 2 (quick) / 4 (thorough) arbitrary bytes: symmetric and equal to the component-wise reference.',
+         'Bounded model checking of the real text over a concrete bounded std::string (vstd_string.h); strings longer than the '
+         'bound are not covered. The component loop of decl_names_equal is unrolled mechanically (4 copies + unwinding assertion) '
+         'in the anonymous-name harness.', '5 C41'),
+})
+
 NA = {
  'C01': 'rests on reflexivity of ~40 mutually recursive equals() overloads, canonicalisation and DIE de-duplication over arbitrary type graphs (abg-ir.cc, abg-dwarf-reader.cc); outside the C++ subset CBMC 6.11 parses and not expressible as a contract on any reachable function',
  'C02': 'writer/reader pair over the whole IR and libxml2 trees; outside front-end reach (attribute escaping is claimed under C04)',
